@@ -99,7 +99,7 @@ Definition do_denote (body : list sexp) : sexp :=
                 | Some (_, n) => n
                 | None => (1000 + u)%N
                 end in
-              let env := mkEnv (ri_ctx ri) look (ri_msel ri) (p_subs p) false in
+              let env := mkEnv (ri_ctx ri) look (ri_msel ri) (p_subs p) false main_param in
               let '(v, st) := run_main env (ri_fuel ri) (p_main p) (ri_state ri) in
               SList [Atom "ran"; p_dverdict v;
                      SList [Atom "stack"];
